@@ -124,6 +124,15 @@ def assum_tables():
     return tabs
 
 
+def function_kwargs(f) -> dict:
+    """assumptions an undefined function was built with; `commutative=True` (the default of every function, and what a
+    source symbol's assumptions0 carries along into clone_as_function) is not an assumption in the property's sense"""
+    kw = dict(getattr(f, "_kwargs", {}))
+    if kw.get("commutative") is True:
+        kw.pop("commutative")
+    return kw
+
+
 def classify_assumptions(observed: dict, table) -> tuple | None:
     for a, closure in zip(ASSUMS, table):
         if observed == closure:
@@ -324,7 +333,7 @@ def run_sequence(rng, n_ops: int, t_symbol):
                 raw = dict(h.assumptions0)
                 rec["assum"] = classify_assumptions(raw, tabs[o.kind])
             elif o.kind == "fun":
-                raw = dict(getattr(h, "_kwargs", {}))
+                raw = function_kwargs(h)
                 rec["assum"] = classify_assumptions(raw, tabs["fun"])
             else:
                 raw = {}
